@@ -64,6 +64,39 @@ static void do_build(hctx* h, const el_t* e, int n, const char* find) {
     free_c(c, n);
 }
 
+static void do_builder(hctx* h, const el_t* cols, int ncols) {
+    fprintf(h->out, "schema_builder cols=");
+    for (int i = 0; i < ncols; i++)
+        fprintf(h->out, "%s%s.%d.%d.%d", i ? "," : "", cols[i].name, cols[i].rep, cols[i].ptype, cols[i].tlen);
+    if (ncols == 0) fputc('-', h->out);
+    h_call(h);
+    carquet_error_t err; memset(&err, 0, sizeof err);
+    carquet_schema_t* s = carquet_schema_create(&err);
+    int okc = 1;
+    for (int i = 0; i < ncols && s; i++)
+        if (carquet_schema_add_column(s, cols[i].name, (carquet_physical_type_t)cols[i].ptype, NULL,
+                                      (carquet_field_repetition_t)cols[i].rep, cols[i].tlen) != CARQUET_OK) okc = 0;
+    if (!s || !okc) fprintf(h->out, " | err=1\n");
+    else {
+        fprintf(h->out, " | nel=%d n=%d leaves=", carquet_schema_num_elements(s), carquet_schema_num_columns(s));
+        if (s->num_leaves == 0) fputc('-', h->out);
+        for (int i = 0; i < s->num_leaves; i++)
+            fprintf(h->out, "%s%d.%d.%d", i ? "," : "", s->leaf_indices[i], s->max_def_levels[i], s->max_rep_levels[i]);
+        fprintf(h->out, " els=");
+        for (int i = 0; i < carquet_schema_num_elements(s); i++) {
+            const carquet_schema_node_t* nd = carquet_schema_get_element(s, i);
+            const parquet_schema_element_t* pe = (const parquet_schema_element_t*)nd;
+            fprintf(h->out, "%s%s.%d.%d.%d.%d", i ? "," : "", carquet_schema_node_name(nd),
+                    pe->has_repetition ? (int)carquet_schema_node_repetition(nd) : -1,
+                    carquet_schema_node_is_leaf(nd) ? (int)carquet_schema_node_physical_type(nd) : -1,
+                    carquet_schema_node_type_length(nd), pe->num_children);
+        }
+        fputc('\n', h->out);
+    }
+    if (s) carquet_schema_free(s);
+    h->n_lines++;
+}
+
 /* random well-formed subtree appended at e[*n]; returns nothing, fills nchild */
 static void gen_tree(hctx* h, el_t* e, int* n, int cap, int depth, int is_root) {
     int me = (*n)++;
@@ -127,42 +160,14 @@ static void gen_schema(hctx* h) {
     long seqs = h->thorough ? 300 : 40;
     for (long t = 0; t < seqs; t++) {
         int ncols = (t < 6) ? (int[]){0, 1, 63, 64, 65, 130}[t] : (int)h_below(h, h->thorough ? 1100 : 200);
-        fprintf(h->out, "schema_builder cols=");
         el_t* cols = (el_t*)h_alloc((size_t)(ncols + 1) * sizeof(el_t));
         for (int i = 0; i < ncols; i++) {
             snprintf(cols[i].name, sizeof cols[i].name, "c%d", h_chance(h, 1, 10) ? (int)h_below(h, 5) : i);
             cols[i].rep = (int)h_below(h, 3); cols[i].ptype = (int)h_below(h, 8);
             cols[i].tlen = cols[i].ptype == 7 ? 1 + (int)h_below(h, 16) : 0;
-            fprintf(h->out, "%s%s.%d.%d.%d", i ? "," : "", cols[i].name, cols[i].rep, cols[i].ptype, cols[i].tlen);
         }
-        if (ncols == 0) fputc('-', h->out);
-        h_call(h);
-        carquet_error_t err; memset(&err, 0, sizeof err);
-        carquet_schema_t* s = carquet_schema_create(&err);
-        int okc = 1;
-        for (int i = 0; i < ncols && s; i++)
-            if (carquet_schema_add_column(s, cols[i].name, (carquet_physical_type_t)cols[i].ptype, NULL,
-                                          (carquet_field_repetition_t)cols[i].rep, cols[i].tlen) != CARQUET_OK) okc = 0;
-        if (!s || !okc) fprintf(h->out, " | err=1\n");
-        else {
-            fprintf(h->out, " | nel=%d n=%d leaves=", carquet_schema_num_elements(s), carquet_schema_num_columns(s));
-            if (s->num_leaves == 0) fputc('-', h->out);
-            for (int i = 0; i < s->num_leaves; i++)
-                fprintf(h->out, "%s%d.%d.%d", i ? "," : "", s->leaf_indices[i], s->max_def_levels[i], s->max_rep_levels[i]);
-            fprintf(h->out, " els=");
-            for (int i = 0; i < carquet_schema_num_elements(s); i++) {
-                const carquet_schema_node_t* nd = carquet_schema_get_element(s, i);
-                const parquet_schema_element_t* pe = (const parquet_schema_element_t*)nd;
-                fprintf(h->out, "%s%s.%d.%d.%d.%d", i ? "," : "", carquet_schema_node_name(nd),
-                        pe->has_repetition ? (int)carquet_schema_node_repetition(nd) : -1,
-                        carquet_schema_node_is_leaf(nd) ? (int)carquet_schema_node_physical_type(nd) : -1,
-                        carquet_schema_node_type_length(nd), pe->num_children);
-            }
-            fputc('\n', h->out);
-        }
-        if (s) carquet_schema_free(s);
+        do_builder(h, cols, ncols);
         free(cols);
-        h->n_lines++;
     }
     fprintf(h->out, "#stat wellformed_trees %ld\n#stat malformed_trees %ld\n#stat builder_seqs %ld\n", wf, mal, seqs);
 }
@@ -191,6 +196,10 @@ static int replay_schema(hctx* h, const h_line* l) {
         el_t* e; int n = parse_els(h_in(l, "els"), &e);
         do_build(h, e, n, !strcmp(l->op, "schema_find") ? h_in(l, "name") : NULL);
         free(e); return 1;
+    }
+    if (!strcmp(l->op, "schema_builder")) {
+        el_t* e; int n = parse_els(h_in(l, "cols"), &e);
+        do_builder(h, e, n); free(e); return 1;
     }
     return 0;
 }
